@@ -340,6 +340,7 @@ func (k *walker) dedup(ws []*world) []*world {
 type reject struct {
 	rule, shape, text string
 	rank              int // how far the world got (for choosing the report)
+	applied           int // updates applied in the rejecting world (tie-break: the most-applied world is reported)
 }
 
 func (k *walker) onConn(e Ev) *Violation {
@@ -358,6 +359,7 @@ func (k *walker) onConn(e Ev) *Violation {
 				x = base.clone()
 			}
 			if r := k.connOne(x, node, e); r != nil {
+				r.applied = x.applied
 				rej = append(rej, *r)
 				continue
 			}
@@ -365,7 +367,12 @@ func (k *walker) onConn(e Ev) *Violation {
 		}
 	}
 	if len(next) == 0 {
-		sort.SliceStable(rej, func(i, j int) bool { return rej[i].rank > rej[j].rank })
+		sort.SliceStable(rej, func(i, j int) bool {
+			if rej[i].rank != rej[j].rank {
+				return rej[i].rank > rej[j].rank
+			}
+			return rej[i].applied > rej[j].applied
+		})
 		r := rej[0]
 		via := "delivered-" + strings.ReplaceAll(e.Note, " ", "-")
 		return &Violation{Rule: r.rule, Shape: r.shape + "/" + via, Text: r.text, Seq: e.Seq}
